@@ -213,6 +213,7 @@ struct LvRun<'a> {
     words: Vec<(Vec<u8>, bool)>,
     /// index of the command alternative entered and the command
     entered: Option<(usize, &'a CmdSpec)>,
+    env: &'a HashMap<String, Vec<u8>>,
 }
 
 fn cmd_alts(level: &Level) -> Option<(&[Node], bool)> {
@@ -260,8 +261,22 @@ fn eval_level(run: &LvRun, sub: Option<V>) -> Result<V, String> {
         Node::Seq(xs) => xs,
         _ => return Err("not conventional".into()),
     };
-    let empty = Vec::new();
-    let occs = |n: &NamedSpec| run.occ.get(&n.id).unwrap_or(&empty);
+    // an item absent from the line is taken from the first of its variables that is set
+    let occs = |n: &NamedSpec| -> Vec<Option<Vec<u8>>> {
+        match run.occ.get(&n.id) {
+            Some(v) if !v.is_empty() => v.clone(),
+            _ => match n.envs.iter().find_map(|e| run.env.get(e)) {
+                Some(val) => {
+                    if n.is_arg() {
+                        vec![Some(val.clone())]
+                    } else {
+                        vec![None]
+                    }
+                }
+                None => Vec::new(),
+            },
+        }
+    };
     let mut words = run.words.iter().peekable();
     let mut vals = Vec::new();
     let take_word = |p: &PosSpec, w: &(Vec<u8>, bool)| -> Result<V, String> {
@@ -325,7 +340,7 @@ fn eval_level(run: &LvRun, sub: Option<V>) -> Result<V, String> {
                 let mut xs = Vec::new();
                 match &**n {
                     Node::Named(l) => {
-                        for o in occs(l) {
+                        for o in &occs(l) {
                             xs.push(leaf_value(l, o)?);
                         }
                     }
@@ -353,7 +368,7 @@ fn eval_level(run: &LvRun, sub: Option<V>) -> Result<V, String> {
                 Node::Named(l) => {
                     let o = occs(l);
                     let mut last = None;
-                    for x in o {
+                    for x in &o {
                         last = Some(leaf_value(l, x)?);
                     }
                     match last {
@@ -406,6 +421,11 @@ fn eval_level(run: &LvRun, sub: Option<V>) -> Result<V, String> {
 }
 
 pub fn model(root: &Level, argv: &[Vec<u8>]) -> MOut {
+    model_env(root, argv, &HashMap::new())
+}
+
+/// the reference model with a declared environment: name -> value of every variable that is set
+pub fn model_env(root: &Level, argv: &[Vec<u8>], env: &HashMap<String, Vec<u8>>) -> MOut {
     let mut d = Decls {
         shorts: HashMap::new(),
         longs: HashMap::new(),
@@ -440,6 +460,7 @@ pub fn model(root: &Level, argv: &[Vec<u8>]) -> MOut {
         occ: HashMap::new(),
         words: Vec::new(),
         entered: None,
+        env,
     }];
     let mut path: Vec<String> = Vec::new();
     let mut reject: Option<String> = None;
@@ -507,6 +528,7 @@ pub fn model(root: &Level, argv: &[Vec<u8>]) -> MOut {
                                 occ: HashMap::new(),
                                 words: Vec::new(),
                                 entered: None,
+                                env,
                             });
                         }
                         None => reject = Some(format!("unknown command {:?}", ws)),
